@@ -467,6 +467,7 @@ def repeat_until_stable(b, cfg, store_bb):
                 sticky = False
         if sticky and sets_true:
             flags.add(f)
+    decisions = set()
     for i, blk in enumerate(b.blocks):
         t = blk["t"]
         if "switch" not in t or i not in cfg.reach:
@@ -486,8 +487,25 @@ def repeat_until_stable(b, cfg, store_bb):
         sides = [tg for _, tg in t["targets"]] + [t["otherwise"]]
         reach = [store_bb in cfg.reachable_from(tg) for tg in sides]
         if any(reach) and not all(reach):
-            return True
-    return False
+            decisions.add(i)
+    if not decisions:
+        return False
+    # ... and the repetition has no other way out: every edge leaving the cycle through the store is a side of such a decision
+    # (a pass budget — `for _ in 0..N` — or an early break would stop before the values are stable: the result then depends on
+    # the order in which the types are visited)
+    for x in body_blocks:
+        if b.blocks[x].get("cleanup"):
+            continue
+        for y in cfg.succ[x]:
+            if y in body_blocks or b.blocks[y].get("cleanup"):
+                continue
+            if x in decisions:
+                continue
+            # exits that only lead to a panic / abort do not produce a result
+            if not any("return" in b.blocks[z]["t"] for z in cfg.reachable_from(y) | {y}):
+                continue
+            return False
+    return True
 
 
 def is_cell_borrow(b, src):
